@@ -98,10 +98,9 @@ def build_runner(force=False):
         execvo = os.path.join(COQ, 'theories', 'Extract', 'Exec.vo')
         srcs = [execvo, os.path.join(COQ, 'runner', 'main.ml'),
                 os.path.join(COQ, 'theories', 'Extract', 'ExtractAll.v')]
-        if not os.path.exists(execvo):
-            ok, out = make(['theories/Extract/Exec.vo'])
-            if not ok:
-                raise RuntimeError('cannot build Exec.vo\n' + out[-3000:])
+        ok, out = make(['theories/Extract/Exec.vo'])
+        if not ok:
+            raise RuntimeError('cannot build Exec.vo\n' + out[-3000:])
         if (not force) and os.path.exists(RUNNER) and all(
                 os.path.getmtime(RUNNER) >= os.path.getmtime(s) for s in srcs):
             return RUNNER
@@ -348,6 +347,9 @@ class Verdict:
         self.findings = [f for f in load_findings() if f.get('property') == pid and f.get('status') == 'open']
         self.nviol = 0
         os.makedirs(os.path.join(VERIF, 'replays'), exist_ok=True)
+        if not os.environ.get('VERIF_REPLAY'):
+            for f in glob.glob(os.path.join(VERIF, 'replays', pid + '-*.json')):
+                os.remove(f)
 
     def failure(self, case, classify=None):
         """case: JSON-able dict with at least 'what'.  classify: callable(finding, case) -> bool"""
